@@ -5,9 +5,8 @@ Require Import EmbossV.Types.Model EmbossV.Types.Proofs EmbossV.Types.ProofsModu
 
 (* ---- the full statement (C13 as written): the implementation's checker accepts exactly
         the modules derivable in the documented relation ---- *)
-Definition typecheck_sound_complete_statement : Prop :=
-  forall G m, typecheck_module impl_table G m = MOk <-> well_typed_items G m.
-
+(* [typecheck_sound_complete_statement] (Types.Model) :=
+     forall G m, typecheck_module impl_table G m = MOk <-> well_typed_items G m. *)
 (* It is FALSE of the faithful model; four independent witnesses. *)
 Theorem typecheck_sound_complete_refuted : ~ typecheck_sound_complete_statement.
 Proof. exact typecheck_sound_complete_refuted_lem. Qed.
@@ -69,7 +68,7 @@ Proof. exact module_partial_lem. Qed.
 (* well-typed expressions evaluate, to a value of their type, in every well-typed environment *)
 Theorem well_typed_eval : forall G r e t,
   env_ok G r -> has_type G e t -> exists v, teval r e = Some v /\ vty v = t.
-Proof. exact (fun G r e t => well_typed_eval_lem G r e t). Qed.
+Proof. exact well_typed_eval_lem. Qed.
 
 Theorem accepted_eval_partial : forall G r e t,
   guard G e = true -> typecheck impl_table G e = TOk t -> env_ok G r ->
